@@ -37,6 +37,7 @@ class FlowWorld(World):
         World.__init__(self, *a, **kw)
         self.sched.observer = self._observe
         self.accepted = []       # data of every write_soon that returned normally, in order
+        self.inflight = b""       # data of the write_soon call in progress
         self.ws_log = []         # (kind, size) in program order
         orig_send = self.sock.send
         sched = self.sched
@@ -93,15 +94,30 @@ class FlowWorld(World):
             def write_soon(self, data):
                 n = len(data)
                 world.sched.note("ws_call", n)
+                world.inflight = bytes(data) if isinstance(data, (bytes, bytearray)) else b""
                 try:
                     r = Base.write_soon(self, data)
                 except ClientDisconnected:
+                    world.inflight = b""
                     world.sched.note("ws_raise", n)
                     raise
+                world.inflight = b""
                 world.sched.note("ws_ret", n)
                 if n and isinstance(data, (bytes, bytearray)):
                     world.accepted.append(bytes(data))
                 return r
+
+            def __setattr__(self, name, value):
+                # the moment of an append / of the close decision of service(), for the monitors (no yield)
+                if world.tracing and name == "total_outbufs_len":
+                    old = object.__getattribute__(self, "total_outbufs_len")
+                    if value > old:
+                        world.sched.note("append", value - old)
+                elif world.tracing and name == "close_when_flushed" and value is True:
+                    me = world.sched.me()
+                    if me is not None and me.name != "io":
+                        world.sched.note("cwf_set", None)
+                Base.__setattr__(self, name, value)
 
         return FlowChannel
 
@@ -177,6 +193,9 @@ def _kind_of(op, detail, nm):
     return None
 
 
+TAIL_KINDS = ["racq", "Rreq", "Rconn", "rrel", "Rconn", "pull"]
+
+
 def translate(world):
     """-> dict(events=[...], post=[snapshot after each event], progs=[(sizes, close)], raw=[index into sched.events])"""
     sched = world.sched
@@ -189,6 +208,8 @@ def translate(world):
     op_idx = sorted(sched.snaps)
     nxt = {}
     moved = {}
+    tphase = {}
+    attrs_mode = world.granularity == "attrs"
     for a, b in zip(op_idx, op_idx[1:]):
         nxt[a] = sched.snaps[b]
     final = world.snap_final
@@ -250,11 +271,39 @@ def translate(world):
         elif role.get(th) == "w":
             thr = "w"
             k = _kind_of(kind, detail, nm)
+            if k == "racq":
+                # keep branch (no close_when_flushed := True before the release): the rest of
+                # service() is the model's tail [tlc]
+                j = i + 1
+                close_branch = False
+                while j < n and not (ev[j][0] == th and ev[j][1] == "release" and ev[j][2] == nm["rlock"]):
+                    if ev[j][0] == th and ev[j][1] == "cwf_set":
+                        close_branch = True
+                    j += 1
+                if not close_branch:
+                    role[th] = "t"
+                    tphase[th] = 1
+                    thr, arg = "t", "0"
         elif role.get(th) == "t":
             k = _kind_of(kind, detail, nm)
             thr = "t"
-            if k not in ("Rconn", "pull"):
-                k = None
+            ph = tphase.get(th, 4)
+            if attrs_mode:
+                want = TAIL_KINDS[ph] if ph < len(TAIL_KINDS) else None
+                if k == want:
+                    arg = str(ph)
+                    tphase[th] = ph + 1
+                else:
+                    k = None
+            else:
+                if k == "rrel" and ph <= 3:
+                    arg = "3"
+                    tphase[th] = 5
+                elif k == "pull" and ph >= 4:
+                    arg = "5"
+                    tphase[th] = 6
+                else:
+                    k = None
         if k is None:
             i += 1
             continue
@@ -270,6 +319,7 @@ def translate(world):
         raw.append(i)
         if thr == "w" and k == "rrel":
             role[th] = "t"
+            tphase[th] = 4
         i += 1
     return {"events": out, "post": post, "raw": raw,
             "progs": [(list(s), bool(c)) for s, c in progs]}
@@ -291,7 +341,7 @@ def parse_state(txt):
 
 
 CMP = [("t", "t", int), ("c", "c", lambda v: v == "1"), ("wc", "wc", lambda v: v == "1"),
-       ("cwf", "cwf", lambda v: v == "1"), ("n", "n", int), ("ol", "ol", str), ("rl", "rl", str),
+       ("cwf", "cwf", lambda v: v == "1"), ("n", "n", int), ("ol", "ol", str), ("rl", "rl", lambda v: "w" if v == "t" else v),
        ("pl", "pl", lambda v: v == "1"), ("im", "im", lambda v: v == "1"),
        ("park", "park", lambda v: v == "1"), ("rd", "rd", lambda v: v == "1"), ("gn", "gn", lambda v: v == "1")]
 
@@ -699,8 +749,9 @@ EXPECTED_SHAPE = {'HTTPChannel._flush_exception': ['(self,flush,do_close=True)',
                          'call:self.task_class()',
                          '}',
                          'try{',
-                         'if(self.connected){',
+                         'if(self.connected and (not self.will_close)){',
                          'R:connected',
+                         'R:will_close',
                          '}',
                          'else{',
                          '}',
@@ -944,21 +995,25 @@ def monitors(world, verdict):
     hw, sb = adj.outbuf_high_watermark, adj.send_bytes
     sched = world.sched
     ev = sched.events
-    # (a) bound: bytes held <= high_watermark + size of the last append (an increase of the bytes held)
-    last = 0
-    prev = 0
+    # (a) bound: bytes held <= high_watermark + size of the last append ("append" notes: total_outbufs_len += n)
+    last = 0      # size of the last append
+    cur = 0       # size of the write_soon call in progress (its append may or may not have happened)
     worst = None
-    snaps = [sched.snaps[i] for i in sorted(sched.snaps) if sched.snaps[i] is not None]
-    if getattr(world, "snap_final", None) is not None:
-        snaps.append(world.snap_final)
-    for sn in snaps:
-        p = sn["p"]
-        if p > prev:
-            last = p - prev
-        prev = p
-        if sn["c"] and p > hw + last:
-            if worst is None or p - (hw + last) > worst[0]:
-                worst = (p - (hw + last), p, last)
+    for i, (th, kind, detail) in enumerate(ev):
+        if kind == "append":
+            last = detail
+        elif kind == "ws_call":
+            cur = detail
+        elif kind in ("ws_ret", "ws_raise"):
+            cur = 0
+        sn = sched.snaps.get(i)
+        allowed = hw + max(last, cur)
+        if sn is not None and sn["c"] and sn["p"] > allowed:
+            if worst is None or sn["p"] - allowed > worst[0]:
+                worst = (sn["p"] - allowed, sn["p"], max(last, cur))
+    sn = getattr(world, "snap_final", None)
+    if sn is not None and sn["c"] and sn["p"] > hw + max(last, cur) and worst is None:
+        worst = (sn["p"] - hw - max(last, cur), sn["p"], max(last, cur))
     if worst is not None:
         out.append(("bound", None, "bytes held %d > high_watermark %d + last write %d" % (worst[1], hw, worst[2])))
     fin = getattr(world, "snap_final", None)
@@ -994,9 +1049,9 @@ def monitors(world, verdict):
                 break
     # (d) order / integrity of the wire
     acc = b"".join(world.accepted)
-    if not acc.startswith(bytes(world.wire)):
+    if not (acc + world.inflight).startswith(bytes(world.wire)):
         out.append(("wire-not-prefix", None, "the bytes on the wire are not a prefix of the accepted output"))
-    elif fin["c"] and fin["t"] == 0 and fin["p"] == 0 and fin["ol"] == "-" and bytes(world.wire) != acc:
+    elif fin["c"] and fin["t"] == 0 and fin["p"] == 0 and fin["ol"] == "-" and not world.inflight and bytes(world.wire) != acc:
         out.append(("wire-incomplete", None, "total_outbufs_len is 0 but %d accepted bytes never reached the wire" % (len(acc) - len(world.wire))))
     return out
 
